@@ -54,3 +54,34 @@ impl Gen {
         Gen::new(self.next())
     }
 }
+
+// ---- shape stream: decisions that change the representation but not the logical value
+// (insertion order, reserve/shrink, ring-buffer rotation, exhausted flag) draw from a separate
+// thread-local generator, so that the same value seed with two shape seeds yields two
+// representations of one logical value.
+thread_local! {
+    static SHAPE: std::cell::RefCell<Gen> = std::cell::RefCell::new(Gen::new(0x5eed));
+}
+pub fn set_shape_seed(seed: u64) {
+    SHAPE.with(|s| *s.borrow_mut() = Gen::new(seed));
+}
+pub fn shape_below(n: u64) -> u64 {
+    SHAPE.with(|s| s.borrow_mut().below(n))
+}
+pub fn shape_chance(num: u64, den: u64) -> bool {
+    shape_below(den) < num
+}
+/// permute by the shape stream
+pub fn shape_shuffle<T>(v: &mut Vec<T>) {
+    match shape_below(4) {
+        0 => {}
+        1 => v.reverse(),
+        _ => {
+            let n = v.len();
+            for i in (1..n).rev() {
+                let j = shape_below(i as u64 + 1) as usize;
+                v.swap(i, j);
+            }
+        }
+    }
+}
